@@ -108,6 +108,10 @@ def pair_cases(an: str, bn: str, variant: str = "") -> list[tuple[str, str]]:
         B = type(B)(base_vectors=(A if an == bn else type(B)()).args[1])
     elif variant == "shared-scalars":
         B = type(B)(base_scalars=(A if an == bn else type(B)()).base_scalars)
+    elif variant == "function-vectors":
+        # base vectors given by the caller as vector functions of the point (allowed for every kind)
+        from symplyphysics.core.experimental.vectors import VectorFunction
+        B = type(B)(base_vectors=[VectorFunction(f"g_{i}", nargs=1) for i in (1, 2, 3)])
     if variant:
         bn_tag = f"{bn}[{variant}]"
         return [(k.replace(f"{an}->{bn}:", f"{an}->{bn_tag}:"), v) for k, v in _pair_cases(an, bn, A,
@@ -413,7 +417,7 @@ def main(run: Run) -> int:
     items: list[tuple] = [("pair", a, b) for a, b in itertools.permutations(NAMES, 2)]
     items += [("pair", a, a) for a in NAMES]
     items += [("pair", a, b, v) for a, b in itertools.product(NAMES, repeat=2) for v in (
-        "shared-vectors", "shared-scalars")]
+        "shared-vectors", "shared-scalars", "function-vectors")]
     items += [("triple", a, b, c) for a, b, c in itertools.permutations(NAMES, 3)]
     items.append(("lame", ))
     items.append(("axis", ))
